@@ -64,6 +64,8 @@ def run(ctx):
                     probs.append('ValueError although s may be in [0, L] (%s)' % p.cond_text()[:80])
             elif outside:
                 probs.append('no ValueError for s outside [0, L] (%s)' % p.cond_text()[:80])
+            elif not inside:
+                probs.append('a result is produced on a path that has not established 0 <= s <= L (%s)' % p.cond_text()[:80])
             elif p.raised is None:
                 if s_sign == frozenset('0') and not to_rat(p.value[0]).equals(0):
                     probs.append('ilength(0) returns %r' % (p.value[0],))
